@@ -53,7 +53,7 @@ def per_chain_rngs(run, it):
     tag = P + "_get_per_chain_rngs"
 
     def h(ctx):
-        kind = ctx.choose(3, "generator-kind")  # jumped-capable, seed-sequence only, unsupported
+        kind = ctx.choose(4, "generator-kind")  # jumped-capable, seed-sequence only, unsupported, both (every modern numpy bit generator)
         n = ctx.choose(4, "n_chain") + 1
         mod = it.module(MOD)
         ex = Exec(it, ctx, mod, mod.env, "harness")
@@ -69,6 +69,12 @@ def per_chain_rngs(run, it):
         elif kind == 1:
             ss = Opaque("seedseq", spawn=Native(lambda ex_, k: [("base-state", "spawn", j) for j in range(k)], "spawn"))
             base = Opaque("base_rng", _bit_generator=Opaque("bitgen", _seed_seq=ss))
+        elif kind == 3:
+            # numpy bit generators have BOTH: `jumped` is a function of the generator's state; `_seed_seq` is not part of the state -- a generator obtained by
+            # jumping or by restoring a saved state carries a SeedSequence drawn from fresh OS entropy.  Reproducibility = streams derived from the state.
+            ss = Opaque("seedseq", spawn=Native(lambda ex_, k: [("os-entropy-not-part-of-the-state", "spawn", j) for j in range(k)], "spawn"))
+            bg = Opaque("bitgen", jumped=Native(lambda ex_, i: ("base-state", "jumped", i), "jumped"), _seed_seq=ss)
+            base = Opaque("base_rng", bit_generator=bg)
         else:
             base = Opaque("base_rng")
         try:
@@ -84,11 +90,11 @@ def per_chain_rngs(run, it):
         ok = len(res) == n and len(set(srcs)) == n
         ctx.run.ob(tag + "/streams-pairwise-distinct", core.DISCHARGED if ok else core.FAILED, "pyvc", detail="" if ok else str(srcs),
                    text="distinct chains get distinct generator sources")
-        want = [("base-state", "jumped" if kind == 0 else "spawn", c) for c in range(n)]
+        want = [("base-state", "jumped" if kind in (0, 3) else "spawn", c) for c in range(n)]
         okp = srcs == want
         ctx.run.ob(tag + "/stream-of-chain-c-depends-on-base-and-c-only", core.DISCHARGED if okp else core.FAILED, "pyvc",
                    detail="" if okp else f"{srcs}", text="chain c is driven by jumped(c) / spawn()[c] of the base generator, whatever the number of chains")
-    it.explore(h, "_get_per_chain_rngs", roots=[[k, n] for k in range(3) for n in range(4)])
+    it.explore(h, "_get_per_chain_rngs", roots=[[k, n] for k in range(4) for n in range(4)])
     it.overrides.pop((MOD, "default_rng"), None)
 
 
